@@ -22,13 +22,13 @@ SPEC_TYPES = {'boolean': ('bool', 'boolean'), 'integer': ('int', 'Int64'), 'numb
 
 def check(run):
     p = run.prog
-    chain(run, p)
-    dkeys(run, p)
-    types(run, p)
-    isolang(run, p)
-    precedence(run, p)
-    declared(run, p)
-    titles(run, p)
+    run.attempt(chain, run, p)
+    run.attempt(dkeys, run, p)
+    run.attempt(types, run, p)
+    run.attempt(isolang, run, p)
+    run.attempt(precedence, run, p)
+    run.attempt(declared, run, p)
+    run.attempt(titles, run, p)
     from .common import gotcha_rule
     n = gotcha_rule(run, 'C16-ACCUM', p, ['tdda.serial.pandasio', 'tdda.serial.csvw', 'tdda.serial.reader', 'tdda.serial.base'],
                     'what several columns contribute to one read_csv argument is accumulated, not overwritten or dropped: no '
@@ -40,8 +40,8 @@ def check(run):
                  'metadata is read from the file each time it is needed: no memoising decorator and no class-level container used as a cache '
                  'in the serial modules (a rewritten metadata file must take effect)')
     from .. import ief, triage
-    ief.run_ief(run, 'C16', [p.fn('tdda.serial.reader.csv2pandas'), p.fn('tdda.serial.pandasio.gen_pandas_kwargs')], triage=triage.IEF)
-    run.floor('C16-IEF', run.units['ief_functions_checked'], 20)
+    run.attempt(ief.run_ief, run, 'C16', [p.fn('tdda.serial.reader.csv2pandas'), p.fn('tdda.serial.pandasio.gen_pandas_kwargs')], triage=triage.IEF)
+    run.floor('C16-IEF', run.units.get('ief_functions_checked', 0), 20)
 
 
 def chain(run, p):
